@@ -117,6 +117,17 @@ fn main() {
                     Err(_) => writeln!(out, "ERR|{}", dump_msk(&msk)).unwrap(),
                 }
             }
+            // refresh of a DAMAGED COPY of an issued key (one bit of its signature flipped): must be refused, nothing may change
+            "RFBAD" => {
+                if usks.is_empty() { writeln!(out, "NOIDX|{}", dump_msk(&msk)).unwrap(); continue; }
+                let k: usize = f[1].parse::<usize>().unwrap() % usks.len();
+                let mut b = usks[k].serialize().unwrap().to_vec(); let n = b.len(); b[n - 1] ^= 1;
+                match UserSecretKey::deserialize(&b) {
+                    Ok(mut bad) => { let r = cc.refresh_usk(&mut msk, &mut bad, f[2] == "1");
+                        writeln!(out, "{}|{}|{}", if r.is_ok() { "OK" } else { "ERR" }, dump_msk(&msk), dump_usk(&usks[k])).unwrap(); }
+                    Err(_) => writeln!(out, "ERR|{}|{}", dump_msk(&msk), dump_usk(&usks[k])).unwrap(),
+                }
+            }
             // backup / restore of the master key (an old serialized copy replaces the current one)
             "SNAP" => { snaps.push(msk.serialize().unwrap().to_vec()); writeln!(out, "OK|{}", dump_msk(&msk)).unwrap(); }
             "REST" => {
